@@ -29,6 +29,9 @@ macro_rules! subject_impl {
             fn expand(&self, f: &[u8]) -> R<Vec<u8>> {
                 $krate::expand_zlib_chunks(f, 0).map_err(Self::e)
             }
+            fn expand_log(&self, f: &[u8], level: u32) -> R<Vec<u8>> {
+                $krate::expand_zlib_chunks(f, level).map_err(Self::e)
+            }
             fn recreate(&self, src: &mut dyn Read, dst: &mut dyn Write) -> R<()> {
                 let mut s = src;
                 let mut d = dst;
